@@ -247,6 +247,13 @@ func (e *FuncEnc) loopInvariantFormulas(li *loopInfo, bind map[*ssa.Phi]string, 
 			out = append(out, NamedFormula{Name: "auto:" + phi.Comment + "<=init", Formula: sx("<=", bind[phi], init)})
 		}
 	}
+	// inferred: a loop whose body emits no response event keeps nResp
+	if li.modTrace && e.loopResponseFree(li) {
+		if entry := e.loopEntryTrace(li); entry != "" {
+			e.D.UF("nResp", []string{"Trace"}, "Int")
+			out = append(out, NamedFormula{Name: "auto:nResp", Formula: eq(sx("nResp", st.trace), sx("nResp", entry))})
+		}
+	}
 	// contract invariants
 	if e.Contract != nil {
 		ord := e.loopOrd[li.header]
@@ -376,3 +383,95 @@ func (e *FuncEnc) checkSharedMapUpdate(x *ssa.MapUpdate) {
 		e.StoreHook(e, x, x.Map)
 	}
 }
+
+// loopEntryTrace: the trace when the loop is entered (single entry edge).
+func (e *FuncEnc) loopEntryTrace(li *loopInfo) string {
+	tr := ""
+	n := 0
+	for _, p := range li.header.Preds {
+		if li.body[p] {
+			continue
+		}
+		if st, ok := e.exit[p]; ok {
+			tr = st.trace
+			n++
+		}
+	}
+	if n != 1 {
+		return ""
+	}
+	return tr
+}
+
+// loopResponseFree: no instruction in the loop can write a status line or
+// delegate to a handler.
+func (e *FuncEnc) loopResponseFree(li *loopInfo) bool {
+	for b := range li.body {
+		for _, in := range b.Instrs {
+			c, ok := in.(ssa.CallInstruction)
+			if !ok {
+				continue
+			}
+			cc := c.Common()
+			if cc.IsInvoke() {
+				name := shortType(cc.Value.Type()) + "." + cc.Method.Name()
+				if respEvent(name) {
+					return false
+				}
+				kind := CallHavoc
+				if e.W != nil && e.W.DynamicPolicy != nil {
+					kind = e.W.DynamicPolicy(e, in, name)
+				}
+				if kind == CallHavoc && !e.invokeKeepsResp(cc) {
+					return false
+				}
+				continue
+			}
+			switch f := cc.Value.(type) {
+			case *ssa.Builtin:
+			case *ssa.Function:
+				if !e.calleeKeepsResp(f) {
+					return false
+				}
+			case *ssa.MakeClosure:
+				if !e.calleeKeepsResp(f.Fn.(*ssa.Function)) {
+					return false
+				}
+			default:
+				// user hooks never see the ResponseWriter unless it is passed to them
+				for _, a := range cc.Args {
+					if isNamed(a.Type(), "net/http", "ResponseWriter") {
+						return false
+					}
+				}
+			}
+		}
+	}
+	return true
+}
+
+func (e *FuncEnc) calleeKeepsResp(f *ssa.Function) bool {
+	if e.W == nil {
+		return false
+	}
+	if !e.W.IsModule(f) || f.Blocks == nil {
+		full := f.String()
+		if respEvent(full) {
+			return false
+		}
+		// library functions that receive a ResponseWriter may write to it
+		for _, p := range f.Params {
+			if isNamed(p.Type(), "net/http", "ResponseWriter") {
+				return false
+			}
+		}
+		return true
+	}
+	if c := e.W.ContractFor(f); c != nil && (c.Pure || c.Options["keepsResp"] == "true") {
+		return true
+	}
+	_, _, tr := e.W.ModSet(f)
+	return !tr
+}
+
+func (e *FuncEnc) invokeKeepsResp(cc *ssa.CallCommon) bool { return false }
